@@ -59,13 +59,16 @@ Proof. reflexivity. Qed.
 Lemma py_min2_int a b : py_min2 (VInt a) (VInt b) = Ok (VInt (if b <? a then b else a)).
 Proof. unfold py_min2, py_min_list. cbn [fold_minmax]. py_run. destruct (b <? a); reflexivity. Qed.
 
-(* normalize_year leaves a day that fits Excel's month length, after the month normalisation *)
+(* normalize_year leaves a day that fits Excel's month length, after the month
+   normalisation; before year 1 it leaves every day *)
 Lemma normalize_fits f y m d :
-  (nmonth m = 2 -> 0 < nyear y m) -> 1 <= d <= xdim (nyear y m) (nmonth m) ->
+  nyear y m < 1 \/ 1 <= d <= xdim (nyear y m) (nmonth m) ->
   date_time.f_normalize_year (S f) (VInt y) (VInt m) (VInt d)
   = Ok (VTuple [VInt (nyear y m); VInt (nmonth m); VInt d]).
 Proof.
-  intros Hy Hd. pose proof (nmonth_range m) as R. rewrite normalize_month.
+  intros Hd. pose proof (nmonth_range m) as R. rewrite normalize_month.
+  destruct (Z_lt_dec (nyear y m) 1) as [L|G]; [apply normalize_before_year1; assumption|].
+  destruct Hd as [Hd|Hd]; [lia|].
   rewrite (normalize_step _ _ _ _ (xdim (nyear y m) (nmonth m))) by (try lia; apply max_days_val; lia).
   replace (d <=? 0) with false by (symmetry; apply Z.leb_gt; lia).
   replace (xdim (nyear y m) (nmonth m) <? d) with false by (symmetry; apply Z.ltb_ge; lia).
@@ -83,7 +86,7 @@ Proof.
   assert (Ya : yadj y = y) by (unfold yadj; replace (y <? 1900) with false by (symmetry; apply Z.ltb_ge; lia); reflexivity).
   assert (N : date_time.f_normalize_year py_recursion_fuel (VInt (yadj y)) (VInt m) (VInt d)
               = Ok (VTuple [VInt (nyear y m); VInt (nmonth m); VInt d])).
-  { rewrite Ya. unfold py_recursion_fuel. apply normalize_fits; [lia|]. rewrite xdim_dim by lia. lia. }
+  { rewrite Ya. unfold py_recursion_fuel. apply normalize_fits. right. rewrite xdim_dim by lia. lia. }
   rewrite (date_norm y m d _ _ _ ltac:(lia) N).
   pose proof (ymd2ord_late (nyear y m) (nmonth m) d ltac:(lia) R H3 ltac:(lia)).
   rewrite date_tail_late by lia. reflexivity.
@@ -117,19 +120,22 @@ Qed.
 
 Lemma months_inc_ed n k y m d : 0 <= n < 2958466 ->
   date_time.f_date_from_int (VInt n) = Ok (VTuple [VInt y; VInt m; VInt d]) ->
-  (nmonth (m + k) = 2 -> 0 < nyear y (m + k)) ->
   date_time.f_edate (VInt n) (VInt k) =
+    if nyear y (m + k) <? 1 then Ok excelutil.c_NUM_ERROR else
     date_time.f_date (VInt y) (VInt (m + k))
       (VInt (let x := xdim (nyear y (m + k)) (nmonth (m + k)) in if x <? d then x else d)).
 Proof.
-  intros Hn Hd Hy. unfold date_time.f_edate, date_time.f_months_inc. py_run. rewrite !coerce_int. py_run.
+  intros Hn Hd. unfold date_time.f_edate, date_time.f_months_inc. py_run. rewrite !coerce_int. py_run.
   replace (n <? 0) with false by (symmetry; apply Z.ltb_ge; lia). py_run.
   unfold date_time.c_DATE_MAX_INT. py_run.
   replace (2958466 <=? n) with false by (symmetry; apply Z.leb_gt; lia). py_run.
   rewrite Hd. py_run. pose proof (nmonth_range (m + k)) as R.
   unfold py_recursion_fuel.
-  rewrite normalize_fits by (try assumption; pose proof (xdim_bounds (nyear y (m + k)) (nmonth (m + k)) R); lia).
-  py_run. rewrite max_days_val by assumption. py_run. rewrite py_min2_int. py_run. reflexivity.
+  rewrite normalize_fits by
+    (pose proof (xdim_bounds (nyear y (m + k)) (nmonth (m + k)) R);
+     destruct (Z_lt_dec (nyear y (m + k)) 1); [left; assumption|right; lia]).
+  py_run. destruct (nyear y (m + k) <? 1) eqn:E; [reflexivity|]. apply Z.ltb_ge in E.
+  py_run. rewrite max_days_val by lia. py_run. rewrite py_min2_int. py_run. reflexivity.
 Qed.
 
 Lemma from_int_spec n y m d : 60 < n <= 2958465 -> ord2ymd (693594 + n) = (y, m, d) ->
@@ -202,8 +208,9 @@ Proof.
   pose proof (nmonth_range (m + k)) as R. fold m2 in R.
   pose proof (dim_bounds y2 m2 R) as B.
   assert (Hdd : 1 <= dd <= days_in_month y2 m2) by (unfold dd; lia).
-  rewrite (months_inc_ed n k y m d ltac:(lia) F) by (fold y2; lia).
-  fold y2 m2. rewrite xdim_dim by lia. cbv zeta.
+  rewrite (months_inc_ed n k y m d ltac:(lia) F). fold y2 m2.
+  replace (y2 <? 1) with false by (symmetry; apply Z.ltb_ge; lia).
+  rewrite xdim_dim by lia. cbv zeta.
   replace (if days_in_month y2 m2 <? d then days_in_month y2 m2 else d) with dd
     by (unfold dd; destruct (days_in_month y2 m2 <? d) eqn:C;
         [apply Z.ltb_lt in C|apply Z.ltb_ge in C]; lia).
